@@ -215,10 +215,12 @@ pub fn vf_u64_from_be_bytes(b: [u8; 8]) -> (r: u64)
 { u64::from_be_bytes(b) }
 
 pub trait VfTryInto<A> {
-    fn vf_try_into(&self) -> (r: Result<A, std::array::TryFromSliceError>);
+    type VfErr;
+    fn vf_try_into(&self) -> (r: Result<A, Self::VfErr>);
 }
 pub open spec fn arr_seq<const N: usize>(a: [u8; N]) -> Seq<u8> { a@ }
 impl<const N: usize> VfTryInto<[u8; N]> for [u8] {
+    type VfErr = std::array::TryFromSliceError;
     #[verifier::external_body]
     fn vf_try_into(&self) -> (r: Result<[u8; N], std::array::TryFromSliceError>)
         ensures
